@@ -525,6 +525,15 @@ theorem rstep_inv (s : RState) (e : REv) (h : RInv s) : RInv (rstep .fresh s e) 
       · intro u i hu; simp only [List.length_set]; exact hb u i hu
       · exact hi
     · exact ⟨hb, hi⟩
+  | wrUnless t bad v =>
+    simp only [rstep]
+    split
+    · split
+      · exact ⟨hb, hi⟩
+      · constructor
+        · intro u i hu; simp only [List.length_set]; exact hb u i hu
+        · exact hi
+    · exact ⟨hb, hi⟩
   | rd t =>
     simp only [rstep]
     split
@@ -563,6 +572,23 @@ theorem rstep_other (t : Nat) (s s' : RState) (e : REv) (h : RInv s) (hr : RRel 
         · simp only; rw [getD_set_other _ _ _ _ hri]; exact h3
         · simp only [List.length_set]; exact h4
     · exact ⟨hlog, hheld⟩
+  | wrUnless u bad v =>
+    simp only [REv.agent] at hne
+    simp only [rstep]
+    split
+    · rename_i r hur
+      split
+      · exact ⟨hlog, hheld⟩
+      · refine ⟨hlog, ?_⟩
+        rcases hheld with hn | ⟨i, j, h1, h2, h3, h4, h5⟩
+        · exact Or.inl hn
+        · have hri : r ≠ i := by
+            intro e; subst e
+            exact hne (hi u t r hur h1)
+          refine Or.inr ⟨i, j, h1, h2, ?_, ?_, h5⟩
+          · simp only; rw [getD_set_other _ _ _ _ hri]; exact h3
+          · simp only [List.length_set]; exact h4
+    · exact ⟨hlog, hheld⟩
   | rd u =>
     simp only [REv.agent] at hne
     have hut : ¬ t = u := fun e => hne e.symm
@@ -595,6 +621,18 @@ theorem rstep_same (t : Nat) (s s' : RState) (e : REv) (hr : RRel t s s')
       · simp only; rw [getD_set_self _ _ _ h4, getD_set_self _ _ _ h5]
       · simp only [List.length_set]; exact h4
       · simp only [List.length_set]; exact h5
+  | wrUnless u bad v =>
+    simp only [REv.agent] at he; subst he
+    rcases hheld with ⟨h1, h2⟩ | ⟨i, j, h1, h2, h3, h4, h5⟩
+    · simp only [rstep, h1, h2]
+      exact ⟨hlog, Or.inl ⟨h1, h2⟩⟩
+    · simp only [rstep, h1, h2, h3]
+      split
+      · exact ⟨hlog, Or.inr ⟨i, j, h1, h2, h3, h4, h5⟩⟩
+      · refine ⟨hlog, Or.inr ⟨i, j, h1, h2, ?_, ?_, ?_⟩⟩
+        · simp only; rw [getD_set_self _ _ _ h4, getD_set_self _ _ _ h5]
+        · simp only [List.length_set]; exact h4
+        · simp only [List.length_set]; exact h5
   | rd u =>
     simp only [REv.agent] at he; subst he
     rcases hheld with ⟨h1, h2⟩ | ⟨i, j, h1, h2, h3, h4, h5⟩
@@ -624,6 +662,7 @@ def AllZero (s : RState) : Prop := ∀ i, s.cells.getD i 0 = 0
 
 def REv.isWr : REv → Bool
   | .wr _ _ => true
+  | .wrUnless _ _ _ => true
   | _ => false
 
 theorem allZero_empty : AllZero RState.empty := by
@@ -692,6 +731,7 @@ theorem rstep_allZero (p : Policy) (s : RState) (e : REv) (h : AllZero s) (hw : 
     have := alloc_allZero p s h i
     simpa [rstep] using this
   | wr t v => simp [REv.isWr] at hw
+  | wrUnless t bad v => simp [REv.isWr] at hw
   | rd t =>
     simp only [rstep]
     split
@@ -725,6 +765,13 @@ theorem zstep_other (p : Policy) (t : Nat) (s s' : RState) (e : REv) (hr : ZRel 
     split
     · exact ⟨hlog, hh⟩
     · exact ⟨hlog, hh⟩
+  | wrUnless u bad v =>
+    simp only [rstep]
+    split
+    · split
+      · exact ⟨hlog, hh⟩
+      · exact ⟨hlog, hh⟩
+    · exact ⟨hlog, hh⟩
   | rd u =>
     simp only [REv.agent] at hne
     have hut : ¬ t = u := fun e => hne e.symm
@@ -746,6 +793,7 @@ theorem zstep_same (p : Policy) (t : Nat) (s s' : RState) (e : REv) (hz : AllZer
     simp only [rstep, alloc_log, ZRel, ↓reduceIte, Option.isSome_some]
     exact ⟨hlog, trivial⟩
   | wr u v => simp [REv.isWr] at hw
+  | wrUnless u bad v => simp [REv.isWr] at hw
   | rd u =>
     simp only [REv.agent] at he; subst he
     cases h1 : s.held u <;> cases h2 : s'.held u <;> simp only [h1, h2, Option.isSome_some, Option.isSome_none] at hh
@@ -776,5 +824,198 @@ theorem zrun_sim (p : Policy) (t : Nat) (evs : List REv) (s s' : RState) (hz : A
     · have : (e.agent == t) = false := by simpa using he
       simp only [List.filter_cons, this, rrun]
       exact ih _ _ (rstep_allZero p s e hz hwe) hz' (zstep_other p t s s' e hr he) hws
+
+/-! ### contexts shared by evaluations (Model §5) -/
+
+theorem crun_append (p : WatchPolicy) (s : CState) (xs ys : List CEv) :
+    crun p s (xs ++ ys) = crun p (crun p s xs) ys := by
+  induction xs generalizing s with
+  | nil => rfl
+  | cons x xs ih => simp only [List.cons_append, crun]; exact ih _
+
+/-- the events kept for evaluation `e` when `C` says which contexts' ends are kept -/
+def keepFor (C : Nat → Bool) (e : Nat) : CEv → Bool
+  | .start e' _ => e' == e
+  | .instr e' => e' == e
+  | .finish e' => e' == e
+  | .cancel c => C c
+
+/-- evaluation `e` is in the same situation in the full run `s` and in its own run `s'`: same
+    context, same flag, same loads so far; the contexts in `C` are done in the one iff in the other;
+    and `e`'s context is one of `C` -/
+def CRel (C : Nat → Bool) (e : Nat) (s s' : CState) : Prop :=
+  s.ctxOf e = s'.ctxOf e ∧ s.halt e = s'.halt e ∧ s.log e = s'.log e
+    ∧ (∀ c, C c = true → s.done c = s'.done c) ∧ (∀ c, s.ctxOf e = some c → C c = true)
+
+theorem cstep_keep (C : Nat → Bool) (e : Nat) (s s' : CState) (ev : CEv) (hr : CRel C e s s')
+    (hk : keepFor C e ev = true) (hst : ∀ c, ev = .start e c → C c = true) :
+    CRel C e (cstep .perRun s ev) (cstep .perRun s' ev) := by
+  obtain ⟨hc, hh, hl, hd, hin⟩ := hr
+  cases ev with
+  | start e' c =>
+    have he : e' = e := by simpa [keepFor] using hk
+    subst he
+    have hC : C c = true := hst c rfl
+    refine ⟨?_, ?_, hl, hd, ?_⟩
+    · simp only [cstep, ↓reduceIte]
+    · simp only [cstep, ↓reduceIte, hd c hC]
+    · intro c' h
+      simp only [cstep, ↓reduceIte, Option.some.injEq] at h
+      subst h; exact hC
+  | instr e' =>
+    have he : e' = e := by simpa [keepFor] using hk
+    subst he
+    refine ⟨hc, hh, ?_, hd, hin⟩
+    simp only [cstep, ↓reduceIte, hl, hh]
+  | finish e' => exact ⟨hc, hh, hl, hd, hin⟩
+  | cancel c =>
+    refine ⟨hc, ?_, hl, ?_, hin⟩
+    · simp only [cstep, hc, hh]
+    · intro c' hc'
+      simp only [cstep]
+      rw [hd c' hc']
+
+theorem cstep_drop (C : Nat → Bool) (e : Nat) (s s' : CState) (ev : CEv) (hr : CRel C e s s')
+    (hk : keepFor C e ev = false) : CRel C e (cstep .perRun s ev) s' := by
+  obtain ⟨hc, hh, hl, hd, hin⟩ := hr
+  cases ev with
+  | start e' c =>
+    have he : ¬ e = e' := by
+      intro h; subst h; simp [keepFor] at hk
+    refine ⟨?_, ?_, hl, hd, ?_⟩
+    · simp only [cstep, he, ↓reduceIte]; exact hc
+    · simp only [cstep, he, ↓reduceIte]; exact hh
+    · intro c' h
+      simp only [cstep, he, ↓reduceIte] at h
+      exact hin c' h
+  | instr e' =>
+    have he : ¬ e = e' := by
+      intro h; subst h; simp [keepFor] at hk
+    refine ⟨hc, hh, ?_, hd, hin⟩
+    simp only [cstep, he, ↓reduceIte]; exact hl
+  | finish e' => exact ⟨hc, hh, hl, hd, hin⟩
+  | cancel c =>
+    have hCc : C c = false := by simpa [keepFor] using hk
+    have hne : ¬ s.ctxOf e = some c := by
+      intro h
+      have := hin c h
+      rw [hCc] at this; cases this
+    refine ⟨hc, ?_, hl, ?_, hin⟩
+    · simp only [cstep, hne, ↓reduceIte]; exact hh
+    · intro c' hc'
+      have : ¬ c' = c := by
+        intro h; subst h; rw [hCc] at hc'; cases hc'
+      simp only [cstep, this, ↓reduceIte]
+      exact hd c' hc'
+
+theorem crun_sim (C : Nat → Bool) (e : Nat) (evs : List CEv) (s s' : CState) (hr : CRel C e s s')
+    (hst : ∀ c, CEv.start e c ∈ evs → C c = true) :
+    CRel C e (crun .perRun s evs) (crun .perRun s' (evs.filter (keepFor C e))) := by
+  induction evs generalizing s s' with
+  | nil => exact hr
+  | cons ev es ih =>
+    have hst' : ∀ c, CEv.start e c ∈ es → C c = true := fun c h => hst c (List.mem_cons_of_mem _ h)
+    cases hk : keepFor C e ev with
+    | true =>
+      simp only [List.filter_cons, hk, ↓reduceIte, crun]
+      exact ih _ _ (cstep_keep C e s s' ev hr hk (fun c h => hst c (h ▸ List.mem_cons_self ..))) hst'
+    | false =>
+      simp only [List.filter_cons, hk, crun]
+      exact ih _ _ (cstep_drop C e s s' ev hr hk) hst'
+
+theorem crel_empty (C : Nat → Bool) (e : Nat) : CRel C e CState.empty CState.empty :=
+  ⟨rfl, rfl, rfl, fun _ _ => rfl, fun c h => by simp [CState.empty] at h⟩
+
+/-- a set flag stays set until the evaluation is started again -/
+theorem halt_sticks (mid : List CEv) (s : CState) (e : Nat) (h : s.halt e = 1)
+    (hns : ∀ c, CEv.start e c ∉ mid) : (crun .perRun s mid).halt e = 1 := by
+  induction mid generalizing s with
+  | nil => exact h
+  | cons ev es ih =>
+    simp only [crun]
+    apply ih
+    · cases ev with
+      | start e' c =>
+        have he : ¬ e = e' := by
+          intro hh; subst hh; exact hns c (List.mem_cons_self ..)
+        simp only [cstep, he, ↓reduceIte]; exact h
+      | instr e' => exact h
+      | finish e' => exact h
+      | cancel c =>
+        simp only [cstep]
+        split
+        · rfl
+        · exact h
+    · intro c hc; exact hns c (List.mem_cons_of_mem _ hc)
+
+/-- the context an evaluation runs under changes only when it is started again -/
+theorem ctxOf_sticks (mid : List CEv) (s : CState) (e : Nat)
+    (hns : ∀ c, CEv.start e c ∉ mid) : (crun .perRun s mid).ctxOf e = s.ctxOf e := by
+  induction mid generalizing s with
+  | nil => rfl
+  | cons ev es ih =>
+    simp only [crun]
+    rw [ih _ (fun c hc => hns c (List.mem_cons_of_mem _ hc))]
+    cases ev with
+    | start e' c =>
+      have he : ¬ e = e' := by
+        intro hh; subst hh; exact hns c (List.mem_cons_self ..)
+      simp only [cstep, he, ↓reduceIte]
+    | instr e' => rfl
+    | finish e' => rfl
+    | cancel c => rfl
+
+/-! ### configurations and the standard library (Model §6) -/
+
+theorem toR_agent (m a : Nat) (ev : GEv) (r : REv) (h : GEv.toR m a ev = some r) : r.agent = ev.agent := by
+  cases ev with
+  | build e => simp only [GEv.toR, Option.some.injEq] at h; subst h; rfl
+  | deny e m' a' =>
+    simp only [GEv.toR] at h
+    split at h
+    · simp only [Option.some.injEq] at h; subst h; rfl
+    · cases h
+  | override e m' a' v =>
+    simp only [GEv.toR] at h
+    split at h
+    · simp only [Option.some.injEq] at h; subst h; rfl
+    · cases h
+  | use e m' a' =>
+    simp only [GEv.toR] at h
+    split at h
+    · simp only [Option.some.injEq] at h; subst h; rfl
+    · cases h
+
+/-- projecting onto a cell commutes with restricting to one evaluation -/
+theorem filterMap_toR_filter (m a e : Nat) (evs : List GEv) :
+    (evs.filter fun ev => ev.agent == e).filterMap (GEv.toR m a)
+      = (evs.filterMap (GEv.toR m a)).filter fun r => r.agent == e := by
+  induction evs with
+  | nil => rfl
+  | cons ev es ih =>
+    cases hr : GEv.toR m a ev with
+    | none =>
+      by_cases he : (ev.agent == e) = true
+      · simp only [List.filter_cons, he, ↓reduceIte, List.filterMap_cons, hr]; exact ih
+      · simp only [List.filter_cons, he, List.filterMap_cons, hr]; exact ih
+    | some r =>
+      have ha := toR_agent m a ev r hr
+      by_cases he : (ev.agent == e) = true
+      · have hre : (r.agent == e) = true := by rw [ha]; exact he
+        simp only [List.filter_cons, he, ↓reduceIte, List.filterMap_cons, hr, hre, ih]
+      · have hre : ¬ (r.agent == e) = true := by rw [ha]; exact he
+        simp only [List.filter_cons, he, List.filterMap_cons, hr, hre]; exact ih
+
+theorem toR_isWr (m a : Nat) (ev : GEv) (r : REv) (h : GEv.toR m a ev = some r) (hne : ev.isEdit = false) :
+    r.isWr = false := by
+  cases ev with
+  | build e => simp only [GEv.toR, Option.some.injEq] at h; subst h; rfl
+  | deny e m' a' => simp [GEv.isEdit] at hne
+  | override e m' a' v => simp [GEv.isEdit] at hne
+  | use e m' a' =>
+    simp only [GEv.toR] at h
+    split at h
+    · simp only [Option.some.injEq] at h; subst h; rfl
+    · cases h
 
 end Risor.C09
